@@ -430,6 +430,13 @@ Theorem arith_ops (x y : F) :
   arith ODiv x y = do_division x y.
 Proof. repeat split; reflexivity. Qed.
 
+Theorem arith_left_type_ops (bexec : config F -> str -> res (option F)) cfg (x y : F) t t' op :
+  calculate bexec cfg (INumber x t) (INumber y t') op
+  = Ok (Some (INumber (match op with
+                       | OAdd => fadd x y | OSub => fsub x y | OMul => fmul x y
+                       | ODiv => do_division x y end) t)).
+Proof. rewrite arith_left_type. destruct op; reflexivity. Qed.
+
 End Generic.
 
 (* ------------------------------------------------------------------------------------- *)
